@@ -799,11 +799,23 @@ def _process_step_result_tick(
                 else None
             )
             if retries is not None:
-                _next_params = inspect.signature(retries.next).parameters
-                _seed_kwarg = {"seed": jitter_seed} if "seed" in _next_params else {}
-                delay = retries.next(
-                    elapsed_time, failures, result.exception, **_seed_kwarg
-                )
+                try:
+                    _next_params = inspect.signature(retries.next).parameters
+                    _seed_kwarg = (
+                        {"seed": jitter_seed} if "seed" in _next_params else {}
+                    )
+                    delay = retries.next(
+                        elapsed_time, failures, result.exception, **_seed_kwarg
+                    )
+                except Exception:
+                    # A user-supplied retry policy (or retry predicate) that raises
+                    # must not escape the reducer: the run would end without any
+                    # terminal event. Treat it as "do not retry" so the failure
+                    # takes the normal catch_error / WorkflowFailedEvent path.
+                    logger.exception(
+                        "retry policy of step %s raised; not retrying", tick.step_name
+                    )
+                    delay = None
             else:
                 delay = None
             if delay is not None:
